@@ -61,8 +61,16 @@ func init() {
 		models[p+"Sub"] = func(m *Machine, _ *Frame, _ *ssa.CallCommon, a []Val) Val { aDec(m); return Sub(term(a[0]), term(a[1])) }
 		models[p+"Neg"] = func(m *Machine, _ *Frame, _ *ssa.CallCommon, a []Val) Val { aDec(m); return Neg(term(a[0])) }
 		models[p+"String"] = func(m *Machine, _ *Frame, _ *ssa.CallCommon, a []Val) Val {
-			m.E.D.Fun("numstr", []Sort{SInt}, SStr)
-			return m.E.D.Fresh("numstr", SStr)
+			// decimal rendering: an injective function of the number
+			fn, inv := "numstr", "numstr_inv"
+			srt := SInt
+			if isDec {
+				fn, inv, srt = "decstr", "decstr_inv", SDec
+			}
+			m.E.D.Fun(fn, []Sort{srt}, SStr)
+			m.E.D.Fun(inv, []Sort{SStr}, srt)
+			m.E.D.Axiom(fmt.Sprintf("(forall ((x %s)) (! (= (%s (%s x)) x) :pattern ((%s x))))", srt, inv, fn, fn))
+			return App(SStr, fn, term(a[0]))
 		}
 	}
 	models[dec+"Abs"] = func(m *Machine, _ *Frame, _ *ssa.CallCommon, a []Val) Val { aDec(m); return decOp("dabs", term(a[0])) }
@@ -174,6 +182,32 @@ func init() {
 			return e
 		}
 		return e // Wrap(nil) = nil, Wrap(err) != nil: nil-ness is preserved, which is all the model keeps
+	}
+	models["encoding/json.Marshal"] = func(m *Machine, _ *Frame, _ *ssa.CallCommon, a []Val) Val {
+		m.E.Assume("A-JSON", "encoding/json.Marshal of a struct is an injective function of its field values and does not fail on the response structs")
+		iv, ok := a[0].(*IfaceV)
+		if !ok || iv.V == nil {
+			panic(unsupported("json.Marshal of a non-struct value"))
+		}
+		t := iv.Dyn
+		v := iv.V
+		if pt, isP := t.Underlying().(*types.Pointer); isP {
+			t = pt.Elem()
+			v = m.Load(v)
+		}
+		leaves := m.flatten(v, t)
+		var sorts []Sort
+		for _, l := range leaves {
+			sorts = append(sorts, l.Sort)
+		}
+		fn := "json_" + shortType(t)
+		m.E.D.Fun(fn, sorts, SBytes)
+		return &TupleV{Vs: []Val{App(SBytes, fn, leaves...), IntLit(0)}}
+	}
+	models["net/url.QueryUnescape"] = func(m *Machine, _ *Frame, _ *ssa.CallCommon, a []Val) Val {
+		m.E.D.Fun("urlunesc", []Sort{SStr}, SStr)
+		m.E.D.Fun("urlunesc_ok", []Sort{SStr}, SBool)
+		return &TupleV{Vs: []Val{App(SStr, "urlunesc", term(a[0])), Ite(App(SBool, "urlunesc_ok", term(a[0])), IntLit(0), IntLit(994))}}
 	}
 	models["errors.Is"] = func(m *Machine, _ *Frame, _ *ssa.CallCommon, a []Val) Val {
 		m.E.Assume("A-ERRORS", "errors.Is(err, sentinel) is read as identity with the sentinel (errors are nil/non-nil plus sentinel identity)")
